@@ -6,6 +6,7 @@ CONSTANTS
     Design = "temp"
     Policy = "validate"
     RenameAt = "closed"
+    LossyNames = FALSE
     Memo = FALSE
     MaxClear = 0
     MaxExtra = 0
@@ -17,6 +18,7 @@ NEXT Next
 INVARIANT TypeOK
 INVARIANT NoRaise
 INVARIANT RightResults
+INVARIANT Injective
 INVARIANT NoRecompute
 INVARIANT FinalWhole
 INVARIANT OneOwner
